@@ -18,6 +18,11 @@
 #include "sqfs/block.h"
 #include "sqfs/error.h"
 #include "sqfs/io.h"
+#ifdef SCHED
+/* the pool runs under the controlled scheduler: threadpool.c is compiled here with the pthread shim */
+#include REPO_THREADPOOL_C
+#include <unistd.h>
+#endif
 
 #define U 1024
 #define BS 4096
@@ -89,7 +94,38 @@ static sqfs_compressor_t *mkcomp(int unc)
 	return (sqfs_compressor_t *)c;
 }
 
+#ifdef SCHED
+static int g_argc; static char **g_argv; static int bp_main(int argc, char **argv);
+static void *client(void *a) { (void)a; bp_main(g_argc, g_argv); return NULL; }
 int main(int argc, char **argv)
+{
+	/* usage: <input> <seed> : the block processor client and the pool workers are scheduled one step at a time */
+	unsigned long long s = (argc > 2 ? strtoull(argv[2], NULL, 10) : 1) * 2654435761ULL + 99;
+	g_argc = 2; g_argv = argv;
+	sched_yield_on_unlock = 1;
+	sched_spawn(client, NULL);
+	sched_settle();
+	long steps = 0;
+	while (!sched_all_finished()) {
+		int cand[64], nc = 0;
+		for (int i = 0; i < sched_nthreads(); ++i) if (sched_enabled(i)) cand[nc++] = i;
+		if (nc == 0) { printf("{\"deadlock\":true,\"steps\":%ld}\n", steps); fflush(stdout); _exit(0); }
+		s = s * 6364136223846793005ULL + 1442695040888963407ULL;
+		if ((s >> 40) % 16 == 0) {      /* occasional spurious wake-up */
+			for (int i = 0; i < sched_nthreads(); ++i) if (sched_kind(i) == PK_WAIT && !sched_woken(i)) { sched_spurious(i); break; }
+		}
+		s = s * 6364136223846793005ULL + 1442695040888963407ULL;
+		int r = sched_step(cand[(s >> 33) % nc]);
+		if (r == -2) { printf("{\"hang\":true}\n"); fflush(stdout); _exit(0); }
+		if (++steps > 2000000) { printf("{\"livelock\":true}\n"); fflush(stdout); _exit(0); }
+	}
+	fflush(stdout);
+	_exit(0);
+}
+static int bp_main(int argc, char **argv)
+#else
+int main(int argc, char **argv)
+#endif
 {
 	if (argc < 2) return 2;
 	FILE *f = fopen(argv[1], "r");
